@@ -87,7 +87,7 @@ def plan(tier, seed):
             tasks.append(dict(kind="sched", label="%s..+%d" % (part[0]["label"], len(part) - 1), programs=part, **kw))
 
     chunk(p1, 6, bound=1, reduction=True)
-    chunk(p2, 1, bound=2, reduction=True, max_executions=150000)
+    chunk(p2, 1, bound=2, reduction=True, max_executions=60000)
     chunk(pm, 3, bound=1, reduction=True)
     return tasks
 
